@@ -268,6 +268,15 @@ def check_one(item):
         prop = "C12" if flag == "with_alias" else ("C11" if flag == "with_namespace" else "C10")
         kind = {"with_alias": "alias/site", "with_namespace": "ns/site"}.get(flag, "embed/site")
         key = f"{name}|{kind}|{func_short.split('.')[-1]}|{rk}|{flag}"
+        if flag == "with_alias":
+            # the same site obligation belongs to C10 as well: an embedded statement must not print its alias where
+            # the position does not define one
+            k10 = f"{name}|embed/site|{func_short.split('.')[-1]}|{rk}|{flag}"
+            obs.append(Obligation("C10", k10, "embed/site", fi.short, PROVED if v == "yes" else REFUTED,
+                                  detail=f"{func_short} renders {rk} with {flag}={want} (position table)",
+                                  reason="" if v == "yes" else f"{flag} at this site is not provably {want}",
+                                  witness={"family": "call", "oracle": "position_site",
+                                           "args": [func_short, ci.short, rk, flag, want]}))
         if v == "yes":
             obs.append(Obligation(prop, key, kind, fi.short, PROVED,
                                   detail=f"{func_short} renders {rk} with {flag}={want} (position table)"))
